@@ -302,7 +302,8 @@ def run_node(pid, tier, seed):
             out.append(v)
     cov = {"evaluations": total, "distinct_nontrivial": states,
            "rule": "events executed on real *Raft values by the deterministic simulator (cluster driver: 1-5 nodes, elections, replication with "
-                   "probe/pipeline discipline, loss/duplication/delay, membership changes, transfers, snapshots, crashes; node1 driver: one node "
+                   "probe/pipeline discipline, loss/duplication/delay, append requests cut by their connection after any number of entries, membership changes, transfers, snapshots, crashes; "
+                   "the vote requests delivered are the bytes the candidate's own goroutines wrote; node1 driver: one node "
                    "under adversarial requests with any coordinates; leader1 driver: one real leader whose followers are played by the harness: "
                    "any legal answer, any match index, step-downs, transfers that fail, snapshots in between); each event is compared from the implementation's own pre-state with the "
                    "model: reply, task replies, messages, full post-state. Monitors run on the implementation after every event. "
